@@ -314,7 +314,7 @@ def raw_graphs(E, nsp, nb, nb_in=1, bad=False):
 
 def harnesses(tier):
     q = tier == "quick"
-    T = 900 if q else 3000
+    T = 900 if q else 1200
     k, w = (2, 3) if q else (3, 3)
     return [
         H("export", export, dict(k=k, w=w), FUNCS, covers=["exported"],
